@@ -721,3 +721,25 @@ Proof.
   exists [[97]; [97; 98; 122]], [97; 98; 97], [97].
   split; [now left|]. split; [unfold ble; vm_compute; discriminate|]. split; vm_compute; reflexivity.
 Qed.
+
+(** The known class of the latent defect of [find_last_key_leq]. *)
+Definition SurfTrieProperPrefixKey (ks : list bytes) (target : bytes) : Prop :=
+  exists k, In k ks /\ proper_prefix k target.
+
+Theorem may_overlap_le_sound_outside_known : forall ks upper incl,
+  ~ SurfTrieProperPrefixKey ks upper ->
+  (exists k, In k ks /\ cmp_upper incl k upper) ->
+  may_overlap_le (t_build ks) upper incl = true.
+Proof.
+  intros ks upper incl Hn. apply may_overlap_le_sound.
+  intros k Hk Hp. apply Hn. now exists k.
+Qed.
+
+Example may_overlap_le_outside_known_inhabited :
+  ~ SurfTrieProperPrefixKey [[1; 2]; [3]] [2; 0] /\
+  (exists k, In k [[1; 2]; [3]] /\ cmp_upper true k [2; 0]).
+Proof.
+  split.
+  - intros (k & [<-|[<-|[]]] & (s & Hs & E)); discriminate E.
+  - exists [1; 2]. split; [now left|]. unfold cmp_upper, ble. vm_compute. discriminate.
+Qed.
